@@ -140,7 +140,7 @@ PROPS = {
                        "scroll states, recorded macros is deliberately retained); file index selection arithmetic",
     },
     "C16": {
-        "rules": [r_pipeline.run],
+        "rules": [r_pipeline.run, r_pipeline.run_template],
         "explanation": "Narrow: decides the ordering preconditions of transparent indirection — the pre-processing stages are chained "
                        "include -> platform -> env -> template, each consuming the previous stage's result (data-flow order of the "
                        "and_then chain), parse_vars runs after pre-processing and dominates every parser that (transitively) "
